@@ -92,7 +92,8 @@ def _usebig(b):
 def _summ(b):
     def summ(f):
         CALLS["summ"] += 1
-        return len(f.read()) + 100 * b
+        data = f.read()
+        return len(data) + 7 * data.count("y") + 100 * b  # depends on the CONTENT, not only on the length
     return summ
 
 
@@ -125,7 +126,8 @@ def _fmain_n(b):
 def _summ_in(b):
     def summ_in(d):
         CALLS["summ_in"] += 1
-        return len(d["k"][0].read()) + 1000 * b
+        data = d["k"][0].read()
+        return len(data) + 7 * data.count("y") + 1000 * b
     return summ_in
 
 
